@@ -319,8 +319,17 @@ pub fn judge<K: Kit>(prop: &str, tier: &str, idx: usize, sc: &Scenario, seq: &[u
             return;
         }
     };
-    let start_ok = rig.world.free(&rig.start);
+    let start_ok_p1 = rig.world.free(&rig.start);
     for (ci, (res, _used)) in exec.calls.iter().enumerate() {
+        // which problem does this call answer?
+        let alt = exec.alt.as_ref().filter(|(at, _, _)| ci >= *at);
+        let start_ok = match alt {
+            Some((_, s2, _)) => rig.world.free(s2),
+            None => start_ok_p1,
+        };
+        if alt.is_some() {
+            rep.count("replaced_problem_calls", 1);
+        }
         match res {
             Err(e) => {
                 rep.count(&format!("result_{}", err_name(e)), 1);
@@ -341,7 +350,10 @@ pub fn judge<K: Kit>(prop: &str, tier: &str, idx: usize, sc: &Scenario, seq: &[u
                 rep.sample(|| json!({"scenario": sc.tag, "seq": seq, "path": path_json::<K>(path)}));
                 match prop {
                     "C01" => c01(tier, idx, sc, seq, ci, &rig, path, start_ok, rep),
-                    "C02" => c02(tier, idx, sc, seq, ci, &rig, path, rep),
+                    "C02" => match alt {
+                        Some((_, s2, g2)) => c02(tier, idx, sc, seq, ci, &rig, path, s2, g2, rep),
+                        None => c02(tier, idx, sc, seq, ci, &rig, path, &rig.start, &rig.goal, rep),
+                    },
                     "C03" => c03(tier, idx, sc, seq, ci, &rig, path, rep),
                     "C04" => c04(tier, idx, sc, seq, ci, &rig, path, rep),
                     "C05" => c05(tier, idx, sc, seq, ci, &rig, path, rep),
@@ -350,7 +362,7 @@ pub fn judge<K: Kit>(prop: &str, tier: &str, idx: usize, sc: &Scenario, seq: &[u
             }
         }
     }
-    if prop == "C01" && !start_ok {
+    if prop == "C01" && !start_ok_p1 {
         rep.count("histories_with_invalid_start", 1);
     }
 }
@@ -394,13 +406,14 @@ fn c01<K: Kit>(tier: &str, idx: usize, sc: &Scenario, seq: &[u8], ci: usize, rig
 }
 
 #[allow(clippy::too_many_arguments)]
-fn c02<K: Kit>(tier: &str, idx: usize, sc: &Scenario, seq: &[u8], ci: usize, rig: &Rig<K>, path: &[K::S], rep: &mut Report) {
+fn c02<K: Kit>(tier: &str, idx: usize, sc: &Scenario, seq: &[u8], ci: usize, rig: &Rig<K>, path: &[K::S], start: &K::S, goal: &crate::seams::HGoal<K>, rep: &mut Report) {
     let pk = sc.params.pk;
+    let _ = rig;
     let bad = if path.is_empty() {
         Some("empty-path")
-    } else if !K::same(&path[0], &rig.start) {
+    } else if !K::same(&path[0], start) {
         Some("first-state-not-start")
-    } else if !rig.goal.contains(path.last().unwrap()) {
+    } else if !goal.contains(path.last().unwrap()) {
         Some("last-state-not-in-goal")
     } else {
         None
